@@ -1,17 +1,22 @@
 ------------------------------ MODULE MC_Gibbs ------------------------------
 EXTENDS Gibbs, TLC, Json
 CONSTANTS MaxDim, Vals, Sweeps
-VARIABLES done, script   \* sweeps completed; values returned so far (for replay)
+VARIABLES done, script,  \* sweeps completed; values returned so far (for replay)
+          assigns        \* sweep counts after which the user assigned `current_state` := <<7, ..., 7>>
 
 Init == /\ \E d \in 1..MaxDim : GInit([i \in 1..d |-> 9])
-        /\ done = 0 /\ script = <<>>
+        /\ done = 0 /\ script = <<>> /\ assigns = <<>>
 Next == \/ /\ done < Sweeps
            /\ \E r \in Vals : Refresh(r) /\ script' = Append(script, r)
-           /\ UNCHANGED done
-        \/ /\ done < Sweeps /\ EndStep /\ done' = done + 1 /\ UNCHANGED script
-Spec == Init /\ [][Next]_<<gvars, done, script>>
+           /\ UNCHANGED <<done, assigns>>
+        \/ /\ done < Sweeps /\ EndStep /\ done' = done + 1 /\ UNCHANGED <<script, assigns>>
+        \/ /\ done >= 1 /\ done < Sweeps
+           /\ (IF assigns = <<>> THEN TRUE ELSE assigns[Len(assigns)] # done)
+           /\ Assign([i \in 1..Len(state) |-> 7])
+           /\ assigns' = Append(assigns, done) /\ UNCHANGED <<done, script>>
+Spec == Init /\ [][Next]_<<gvars, done, script, assigns>>
 
 (* replay: one JSON line per complete behaviour *)
 Emit == (done = Sweeps) =>
-  PrintT(<<"REPLAY", ToJson([dim |-> Len(state), sweeps |-> Sweeps, script |-> script, final |-> state])>>)
+  PrintT(<<"REPLAY", ToJson([dim |-> Len(state), sweeps |-> Sweeps, script |-> script, assigns |-> assigns, final |-> state])>>)
 =============================================================================
